@@ -1,5 +1,7 @@
 package harness
 
+import "fmt"
+
 func init() {
 	plans["C17"] = func(thorough bool) []*Job {
 		var jobs []*Job
@@ -27,6 +29,16 @@ func init() {
 			}
 			j := seqJob(seqParams{Cfg: cfg, Alphabet: a, Prefixes: [][]string{pre}}, depth, 2, 60, "read-buffer-saturated")
 			j.Variant = "small"
+			jobs = append(jobs, j)
+		}
+		// a read that is dropped (full ring: the read asks for a drain and, with a same-goroutine executor, runs the
+		// maintenance itself) while the clock moves past the entry's old deadline: the outcome must still be the one of
+		// some order of the two operations (either the read came first and extended the deadline, or it missed)
+		for _, rd := range []string{"get 1", "gete 1", "load 1 val"} { // single-key reads: a bulk read is not atomic with respect to the clock
+			cfg := CacheCfg{MaxSize: 8, Expiry: "accessing", TTL: 2 * tickNs, ClockStart: 1 << 40}
+			setup := []string{"set 1", "set 2", "get 1", "get 1", "get 1", "get 1", fmt.Sprintf("adv %d", 2*tickNs-5)}
+			p := concParams{Label: "droppedRead(" + rd + ")‖clock", Cfg: cfg, Setup: setup, Threads: [][]string{{"adv 10"}, {rd, "getq 1"}}, Oracles: []string{"interleaving-equiv"}}
+			j := &Job{Scenario: "cache.conc", Params: js(p), Variant: "small", PB: 2, Shards: 4, BudgetS: 60, Need: []string{"interleavings-explained", "read-buffer-saturated-at-start"}}
 			jobs = append(jobs, j)
 		}
 		// stripe tables with empty slots between rings (two doublings, then attaches at environment-chosen slots)
